@@ -563,6 +563,14 @@ def _compute_constraints_of_bound_function(expression):
         value = expression.function.args[0].type.integer.minimum_value
     else:
         assert False, "Non-bound function"
+    if value in ("infinity", "-infinity"):
+        # The bound of an unbounded value is not a number; leave the result
+        # unbounded (and not constant), so that the constraints pass reports it.
+        expression.type.integer.minimum_value = "-infinity"
+        expression.type.integer.maximum_value = "infinity"
+        expression.type.integer.modular_value = "0"
+        expression.type.integer.modulus = "1"
+        return
     expression.type.integer.minimum_value = value
     expression.type.integer.maximum_value = value
     expression.type.integer.modular_value = value
